@@ -143,7 +143,16 @@ var vhC12Names = []string{"OnLaunch", "OnKill", "OnKilled", "PipeResult", "Pong"
 
 // vhPayload builds a message for a nested Message field.
 func vhPayload(maxlen int) (vivid.Message, func(got vivid.Message, name string)) {
-	switch vrtChoose(3) {
+	switch vrtChoose(4) {
+	case 3:
+		// a registered message without fields: its encoded body is zero bytes,
+		// which is not the same thing as "no message"
+		w := &messages.WatchMessage{}
+		vrtReach("nested-fieldless-message")
+		return w, func(got vivid.Message, name string) {
+			_, ok := got.(*messages.WatchMessage)
+			vrtAssert(ok, name)
+		}
 	case 0:
 		u := &vhUser{Payload: vhBytes(maxlen)}
 		return u, func(got vivid.Message, name string) {
